@@ -211,14 +211,21 @@ def _case(draw):
         avail.append(nm)
     for i in range(draw(st.integers(1, 3))):
         args = [draw(st.sampled_from(avail)) for _ in range(draw(st.integers(1, 3)))]
+        if draw(st.integers(0, 5)) == 0:
+            args[draw(st.integers(0, len(args) - 1))] = "time"
+            feats.add("time_argument")
         bey = None
         if beyond and not used_beyond:
             bey = beyond
             used_beyond = True
         sto = {}
         for v in draw(st.lists(st.sampled_from(vnames), min_size=1, max_size=min(2, nvar), unique=True)):
-            kind = draw(st.sampled_from(["int", "int", "frac", "computed_pos", "computed_neg"]))
-            if kind == "int":
+            kind = draw(st.sampled_from(["int", "int", "frac", "computed_pos", "computed_neg", "named"]))
+            if kind == "named":
+                # a coefficient given by name (a plain parameter)
+                sto[v] = draw(st.sampled_from(pnames))
+                feats.add("named_coefficient")
+            elif kind == "int":
                 sto[v] = draw(st.sampled_from([-1, 1, 2, -2]))
             elif kind == "frac":
                 sto[v] = draw(st.sampled_from([0.5, -0.5, 1.5, -2.5]))
@@ -323,8 +330,8 @@ def _ill_conditioned(case: dict, ctx, st0: dict) -> list[str]:
         illcond.reset()
         m.get_initial_conditions()
         m.get_args()
-        m.get_args(dict(st0), 0.0)
-        m.get_right_hand_side(dict(st0), 0.0)
+        m.get_args(dict(st0), 0.75)
+        m.get_right_hand_side(dict(st0), 0.75)
         return illcond.ties()
     finally:
         sys.modules.pop(modname, None)
@@ -373,8 +380,8 @@ def _examine(case: dict, ctx) -> Outcome:
             m = build(spec)
             vn = m.get_variable_names()
             st0 = dict(case["state"])
-            ref_args = m.get_args(st0, 0.0)
-            ref_rhs = m.get_right_hand_side(st0, 0.0)
+            ref_args = m.get_args(st0, 0.75)
+            ref_rhs = m.get_right_hand_side(st0, 0.75)
             ref_ic = dict(m.get_initial_conditions())
             ref_pv = dict(m.get_args())
         except (ZeroDivisionError, OverflowError, ValueError, TypeError):
@@ -438,8 +445,8 @@ def _examine(case: dict, ctx) -> Outcome:
                     return out
             st2 = dict(m2.get_initial_conditions())
             st2.update(st0)
-            a2 = m2.get_args(st2, 0.0)
-            r2 = m2.get_right_hand_side(st2, 0.0)
+            a2 = m2.get_args(st2, 0.75)
+            r2 = m2.get_right_hand_side(st2, 0.75)
             for k, name, _ in spec["decls"]:
                 if k in ("derived", "reaction"):
                     if not close(a2[name], ref_args[name]):
